@@ -85,7 +85,9 @@ class CheckWeakECPrivateKey:
   return_hints = list(RET)
   total = True
   # the only exception left open: BatchInverse's internal self-check, reached through ExtendedBatchDL -> BatchDL
-  raises = {"ArithmeticError": None}
+  # and Multiply's degenerate-tangent ValueError, possible only for a key that is not on its curve (ExtendedBatchDL's
+  # raises_only_if); no key of the batch is validated before the search, so it stays open here: bounded tier
+  raises = {"ArithmeticError": None, "ValueError": None}
   props = ["C02", "C10", "C16", "C17", "C18"]
 
 
